@@ -109,7 +109,7 @@ def applyHead (key : String) (search : Val) (d : Val) : R Bool :=
         else .ok true
       | .doc _ | .str _ => if key = "$not" then .ok true else .error .opFail
       | _ => .error .typeErr)
-  else if key = "$expr" then unmodelled
+  else if key = "$expr" then Expr.exprFilter search d
   else if topLevelOperators.contains key then .error .notImpl
   else if key.startsWith "$" then .error .opFail
   else applyKey search key d
@@ -125,7 +125,8 @@ theorem applyFields_cons (key : String) (c : Val) (rest : Fields) (d : Val) :
         else do
           let ok ← X
           if ok then applyFields rest d else pure false
-      else if key = "$expr" then unmodelled
+      else if key = "$expr" then do
+        if (← Expr.exprFilter c d) then applyFields rest d else pure false
       else if topLevelOperators.contains key then .error .notImpl
       else if key.startsWith "$" then .error .opFail
       else do
@@ -136,7 +137,7 @@ theorem applyFields_cons (key : String) (c : Val) (rest : Fields) (d : Val) :
       else if logicalKeys.contains key then
         if !c.truthy then .error .opFail
         else X
-      else if key = "$expr" then unmodelled
+      else if key = "$expr" then Expr.exprFilter c d
       else if topLevelOperators.contains key then .error .notImpl
       else if key.startsWith "$" then .error .opFail
       else applyKey c key d) → applyFields ((key, c) :: rest) d = (do
